@@ -42,7 +42,10 @@ def exhaustive(tier):
     for shift in range(1, 11):
         for target in ('gz', 'bz2')[shift % 2:][:1]:
             cases.append({'big': True, 'shift': shift, 'cls': 'DynGraph', 'removal': True, 'io': {'delim': ' ', 'enc': 'utf-8', 'target': target}})
-    return {'cases': cases, 'bound': '18 fixed large round trips (12 nodes with multi-byte ids, 66 pairs x 300 instants = 19800 rows, ~250 KiB; 10 of them byte-shifted by 1-10) in addition to the generated cases'}
+    # ... and two files of more than 1 MiB (readers that buffer or size-limit their input)
+    cases.append({'big': True, 'span': 1500, 'cls': 'DynGraph', 'removal': True, 'io': {'delim': ' ', 'enc': 'utf-8', 'target': 'plain'}})
+    cases.append({'big': True, 'span': 1500, 'cls': 'DynDiGraph', 'removal': True, 'io': {'delim': '\t', 'enc': 'utf-8', 'target': 'gz'}})
+    return {'cases': cases, 'bound': '2 round trips of > 1 MiB (66 pairs x 1500 instants = 99000 rows) and 18 fixed large round trips (12 nodes with multi-byte ids, 66 pairs x 300 instants = 19800 rows, ~250 KiB; 10 of them byte-shifted by 1-10) in addition to the generated cases'}
 
 
 def big_case(case):
@@ -53,7 +56,7 @@ def big_case(case):
     for i in range(len(names)):
         for j in range(i + 1, len(names)):
             a, b = (i, j) if (k % 3 or case['cls'] == 'DynGraph') else (j, i)
-            ops.append(['add', a, b, 100 + (k % 5), 100 + (k % 5) + 300])
+            ops.append(['add', a, b, 100 + (k % 5), 100 + (k % 5) + case.get('span', 300)])
             k += 1
     return dict(case, nodes=names, ops=ops)
 
@@ -62,7 +65,7 @@ def run_case(case, rec):
     import dynetx as dn
     if case.get('big'):
         case = big_case(case)
-        rec.classify('large file (> 64 KiB)')
+        rec.classify('large file (> 1 MiB)' if case.get('span', 300) > 1000 else 'large file (> 64 KiB)')
     else:
         case = dict(case, nodes=iocommon.spaced_labels(case['nodes'], case['io']['delim']))
     d = Driver(case)
@@ -111,7 +114,7 @@ def run_case(case, rec):
             if rec.check('C09.read.call', okr, lambda: '%s read_snapshots raised %r' % (ctx, H)):
                 rec.check('C09.roundtrip.class', type(H) is type(G), lambda: '%s read back as %r' % (ctx, type(H)))
                 common.check_presence(rec, 'C09.roundtrip', H, M, d.nodes, ctx=ctx,
-                                      probes=[99, 100, 101, 104, 170, 399, 400, 403, 404, 405] if case.get('big') else None)
+                                      probes=[99, 100, 101, 104, 170] + [100 + case.get('span', 300) + k for k in (-1, 0, 3, 4, 5)] if case.get('big') else None)
                 used = {x for k in M.orient for x in M.orient[k]}
                 okn, hn = safe(lambda: set(H.nodes()))
                 rec.check('C09.roundtrip.nodes', okn and hn == used, lambda: '%s nodes read back %r, endpoints %r' % (ctx, hn, used))
